@@ -770,6 +770,15 @@ class TokenFlow:
         return live + parked
 
     def _fork(self, test, path, outcomes, then_body, else_body):
+        if isinstance(test, ast.BoolOp) and len(test.values) >= 2:
+            # short-circuit evaluation as nested tests, so that each operand teaches its own fact:
+            #   if A or B: X else: Y   ==   if A: X else: (if B: X else: Y)      if A and B: X else: Y   ==   if A: (if B: X else: Y) else: Y
+            first = test.values[0]
+            rest = test.values[1] if len(test.values) == 2 else ast.copy_location(ast.BoolOp(op=test.op, values=test.values[1:]), test)
+            inner = ast.copy_location(ast.If(test=rest, body=then_body, orelse=else_body or []), test)
+            if isinstance(test.op, ast.Or):
+                return self._fork(first, path, outcomes, then_body, [inner])
+            return self._fork(first, path, outcomes, [inner], else_body)
         out = []
         for p, t in self._hoist(test, path, outcomes):
             d = self.decide(t, p)
